@@ -161,9 +161,9 @@ def items(tier):
     out += [("counts", k) for k in ["identity", "combine", "collector", "walk"]]
     out += [("evalpair", i) for i in range(4)]
     out += [("dependency", i) for i in range(6)]
-    out += [("consttype", k) for k in ["identity", "combine", "collector", "substitution"]]
+    out += [("consttype", k) for k in ["identity", "combine", "collector", "substitution"]] + [("unhashable",)]
     out += [("nodecount",), ("optimizer", "OptRenamer"), ("optimizer", "OptArgRenamer"), ("optimizer", "OptCounter"),
-            ("optimizer", "OptNames"), ("optimizer_repeat",)]
+            ("optimizer", "OptNames"), ("optimizer", "OptAliasMark"), ("optimizer_repeat",)]
     return out
 
 
@@ -240,6 +240,51 @@ def check_pair(name, tier, twin=False):
         res.status = "inconclusive"
         res.note = "history coverage not unsat"
     return H.finish(res, [ex.stats], Query())
+
+
+def check_unhashable():
+    """expressions that cannot be hashed (a list / object array inside a node, or as the whole input): the memoizing
+    mapper must fall back to plain mapping and give the plain mapper's result"""
+    import numpy as np
+    res = ItemResult(item="unhashable inputs", sample={"family": "nodes holding lists / object arrays"})
+    x, y, f = p.Variable("x"), p.Variable("y"), p.Variable("f")
+    arr = np.empty(2, dtype=object)
+    arr[0], arr[1] = p.Sum((x, 1)), y
+    exprs = [("Call(f, [x, y])", p.Call(f, [x, p.Sum((y, 1))])), ("Sum([x, y])", p.Sum([x, y])), ("[x + 1, y]", [p.Sum((x, 1)), y]),
+             ("Product((2, array))", p.Product((2, arr))), ("array", arr), ("Call(f, ([x, y],))", p.Call(f, ([x, y],))),
+             ("[[x], y]", [[x], y])]
+    pairs = _pairs()
+
+    def norm(v):
+        if isinstance(v, np.ndarray):
+            return ("array", tuple(norm(c) for c in v.flat))
+        if isinstance(v, (list, tuple)):
+            return (type(v).__name__, tuple(norm(c) for c in v))
+        if isinstance(v, p.Expression):
+            import dataclasses
+            return (type(v).__name__, tuple(norm(getattr(v, fl.name)) for fl in dataclasses.fields(v)))
+        if isinstance(v, (set, frozenset)):
+            return ("set", tuple(sorted(map(repr, v))))
+        return (type(v).__name__, repr(v))
+    for pname in ("identity", "combine", "collector", "substitution"):
+        mkc, mkp, uses_args, run = pairs[pname]
+        for label, e in exprs:
+            res.path_assertions += 1
+            args = ("_a",) if uses_args else ()
+            got = _safe2(lambda: norm(run(mkc(), e, args)))
+            exp = _safe2(lambda: norm(run(mkp(), e, args)))
+            if got != exp:
+                _viol(res, f"unhashable {pname} {label}", f"memo-unhashable-{pname}",
+                      f"{pname} mapper on {label}: memoizing class gives {got!r:.200}, plain class gives {exp!r:.200}")
+    res.paths = 1
+    return res
+
+
+def _safe2(fn):
+    try:
+        return ("val", fn())
+    except Exception as e:  # noqa: BLE001
+        return ("exc", type(e).__name__)
 
 
 def check_consttype(name):
@@ -414,7 +459,13 @@ def check_optimizer(clsname, tier, repeat=False):
     res = ItemResult(item=f"optimizer {clsname}", sample={"class": clsname, "switch_combinations": 32})
     P = pool()
     bits = [z3.Bool(s) for s in SWITCHES]
-    plain_of = {"OptRenamer": cm.PlainRenamer, "OptArgRenamer": cm.PlainArgRenamer, "OptNames": cm.PlainNames}
+    plain_of = {"OptRenamer": cm.PlainRenamer, "OptArgRenamer": cm.PlainArgRenamer, "OptNames": cm.PlainNames,
+                "OptAliasMark": cm.PlainAliasMark}
+    if clsname == "OptAliasMark":
+        # node types handled through base-class ALIASES of the overridden methods (map_floor_div = map_quotient, ...)
+        x_, y_ = p.Variable("x"), p.Variable("y")
+        P = [p.FloorDiv(x_, y_), p.Remainder(x_, y_), p.Quotient(x_, y_), p.Product((x_, y_)), p.Sum((x_, y_)),
+             p.Product((p.FloorDiv(x_, 2), p.Quotient(y_, 3))), p.BitwiseOr((x_, y_)), p.LogicalAnd((x_, y_)), p.Min((x_, y_))]
 
     def harness():
         sw = {s: bool(sym.SymBool(b)) for s, b in zip(SWITCHES, bits)}
@@ -499,6 +550,8 @@ def check_item(item, tier):
         return check_pair(item[1], tier)
     if k == "twin_pair":
         return check_pair("identity", tier, twin=True)
+    if k == "unhashable":
+        return check_unhashable()
     if k == "consttype":
         return check_consttype(item[1])
     if k == "counts":
